@@ -409,12 +409,15 @@ class MetadorGroup(MetadorNode):
         self._guard_path(name)
         if name[0] == "/" and self.name != "/":
             return name in self["/"]
+        if name == "/":
+            return True  # (here self is the root)
         segs = name.lstrip("/").split("/")
         has_first_seg = segs[0] in self.keys()
         if len(segs) == 1:
             return has_first_seg
         else:
-            if nxt := self.get(segs[0]):
+            nxt = self.get(segs[0])
+            if isinstance(nxt, MetadorGroup):  # (nothing exists below a dataset)
                 return "/".join(segs[1:]) in nxt
             return False
 
